@@ -682,6 +682,20 @@ theorem stepExit_G2 {r : Fin n} {s s' : St n} (h : G2 r s) (v : Fin n) (hs : ste
     exact ⟨fun w hw => h.qphase w (old w hw), fun w hw => h.ns w (old w hw), fun w hw => h.nq w (old w hw), fun w hw => h.nj w (old w hw)⟩
   · cases hs
 
+theorem stepTend_G2 {r : Fin n} {s s' : St n} (h : G2 r s) (v : Fin n) (hs : stepTend r s v = some s') : G2 r s' := by
+  unfold stepTend at hs
+  split at hs
+  · rename_i hg
+    obtain ⟨va, hvr, hpc, hout, hq, hsw, _⟩ := hg
+    cases hs
+    have hrv : r ≠ v := fun e => hvr e.symm
+    have oq1 : quitPc (s.pc r) = true → quitPc (upd s.pc v .gone r) = true := by
+      intro hq'; rw [upd_other _ _ _ _ hrv]; exact hq'
+    exact h.local v .gone (s.q v) (s.out v) (s.flag v) (s.selfWait v) (s.quitWait v) (s.jobId v) rfl (by simp) (by simp) (by simp) (by simp) (by simp) (by simp) rfl
+      oq1 (fun hq' => oq1 (h.qphase v va hq')) (by intro hh; rw [hsw] at hh; cases hh) (by intro hh; cases hh)
+      (fun _ => oj_trivial (by intro j hj; cases hj) (by intro hj; cases hj) (by intro hj; cases hj))
+  · cases hs
+
 theorem init_G2 (r : Fin n) : G2 r (init r) := by
   refine ⟨?_, ?_, ?_, ?_⟩
   · intro v _ hq; simp [init] at hq
@@ -701,6 +715,7 @@ theorem step_G2 {r : Fin n} {s s' : St n} (h1 : G1 r s) (h : G2 r s) (e : Ev n) 
   | searchResult v => exact stepSearchResult_G2 h v hs
   | searchLeave v m => exact stepSearchLeave_G2 h1 h v m hs
   | spawn v p => exact stepSpawn_G2 h v p hs
+  | tend v => exact stepTend_G2 h v hs
   | exit v => exact stepExit_G2 h v hs
   | eRdPre x => exact stepERdPre_G2 h1 h x hs
   | eRd x b => exact stepERd_G2 h1 h x b hs
